@@ -70,6 +70,8 @@ def src(e):
     if k == "path":
         return e["p"]
     if k == "lit":
+        if "t" not in e and isinstance(e.get("e"), dict):  # literal pattern wraps a literal expression
+            return src(e["e"])
         return repr(e["v"]) if e["t"] in ("str", "char") else str(e["v"])
     if k == "call":
         return "%s(%s)" % (src(e["f"]), ", ".join(src(a) for a in e["args"]))
